@@ -271,7 +271,8 @@ Theorem source_facts :
   src_input_format_disables_conversion = true /\ src_sep_from = (45, 46) /\ src_sep_to = 47 /\
   src_max_date_len = 127 /\ src_written_date_format = [37; 89; 47; 37; 109; 47; 37; 100] /\
   src_format_cache_exact_match = true /\
-  src_year_directive_unconditional = true /\ src_year_directive_month = 12 /\ src_year_directive_day = 31.
+  src_year_directive_unconditional = true /\ src_year_directive_month = 12 /\ src_year_directive_day = 31 /\
+  src_file_end_restores_front_only = true.
 Proof. split; [exact default_readers_eq | exact source_switches]. Qed.
 Print Assumptions source_facts.
 
@@ -287,4 +288,39 @@ Print Assumptions md_after_year_directive.
 Theorem end_apply_restores_clock : forall st yr, end_apply (year_directive st yr) = Some st.
 Proof. exact end_apply_year_directive. Qed.
 Print Assumptions end_apply_restores_clock.
+
+(* ---- included files.  final_state st evs is the state (current date, the apply stack of the file
+   being read, those of the including files) after the events evs; JFileBegin / JFileEnd bracket an
+   `include`d file.  A year directive in force in the including file survives an include: a file with
+   no year directive, with one left open, or with a closed `apply year` gives back exactly the state
+   it found, so year-less dates after the include are read as before it. ---- *)
+Theorem include_keeps_year_directive : forall st yr evs evs',
+  only_queries evs -> only_queries evs' ->
+  final_state st (JFileBegin :: evs ++ [JFileEnd]) = st /\
+  final_state st (JFileBegin :: JYear yr :: evs ++ [JFileEnd]) = st /\
+  final_state st (JFileBegin :: JYear yr :: evs ++ JEnd :: evs' ++ [JFileEnd]) = st.
+Proof.
+  intros st yr evs evs' H H'. split; [apply include_plain_file; exact H|].
+  split; [apply include_one_open; exact H | apply include_closed_apply; assumption].
+Qed.
+Print Assumptions include_keeps_year_directive.
+
+(* ---- finding F106: the statement "an included file never changes the including file's current
+   date" is FALSE of the faithful model: only the newest entry of the file's stack is unwound at end
+   of file, so a file that leaves two year directives open leaves the includer in the year of the
+   first (Y 2021 / include {Y 2018 .. Y 2019} / 07/04 is read as 2018-07-04). ---- *)
+Theorem include_restores_clock_refuted :
+  exists st evs, es_outer st = [] /\ es_stack st = [(2021, 6, 15)] /\
+    es_cur (final_state st (JFileBegin :: evs ++ [JFileEnd])) <> es_cur st.
+Proof.
+  exists (mkEpoch (2021, 12, 31) [(2021, 6, 15)] []), [JYear 2018; JQuery; JYear 2019; JQuery].
+  split; [reflexivity|]. split; [reflexivity|]. vm_compute. discriminate.
+Qed.
+Print Assumptions include_restores_clock_refuted.
+
+Theorem include_two_open_directives_leak : forall st y1 y2 evs evs',
+  only_queries evs -> only_queries evs' ->
+  es_cur (final_state st (JFileBegin :: JYear y1 :: evs ++ JYear y2 :: evs' ++ [JFileEnd])) = (y1, 12, 31).
+Proof. exact include_two_open. Qed.
+Print Assumptions include_two_open_directives_leak.
 
